@@ -126,6 +126,27 @@ fn corpus() -> &'static (Vec<String>, Vec<String>) {
     })
 }
 
+/// seed corpus and dictionary for the coverage-guided stage (tools/fuzz_c24.sh): the hand-written seeds, every block
+/// cut from /repo/tests, and the token vocabulary
+pub fn dump_corpus(dir: &std::path::Path) -> std::io::Result<usize> {
+    std::fs::create_dir_all(dir.join("corpus"))?;
+    let (cp, cg) = corpus();
+    let mut n = 0;
+    for text in SEEDS.iter().map(|s| s.to_string()).chain(GOALS.iter().map(|s| s.to_string())).chain(cp.iter().cloned()).chain(cg.iter().cloned()) {
+        if text.len() <= 2000 {
+            std::fs::write(dir.join("corpus").join(format!("seed-{:04}", n)), text.as_bytes())?;
+            n += 1;
+        }
+    }
+    let mut dict = String::new();
+    for tok in TOKENS {
+        let esc: String = tok.chars().map(|c| if c == '"' || c == '\\' { format!("\\{}", c) } else { c.to_string() }).collect();
+        dict.push_str(&format!("\"{}\"\n", esc));
+    }
+    std::fs::write(dir.join("chalk.dict"), dict)?;
+    Ok(n)
+}
+
 pub fn corpus_programs() -> &'static Vec<String> {
     &corpus().0
 }
